@@ -28,7 +28,7 @@ Oracle zones (no single answer is determined; TemplateSyntaxError or any faithfu
 accepted): a block tag with an unbalanced quote; an unterminated tag containing a quoted "%}";
 with multiline_tags=False, a quoted tag that spans a line break.  Avoided by the generator:
 a quoted "%}" inside a verbatim body, backslash-newline inside a string, "{" as last character of a
-text run, complete tags inside an unterminated tail, whitespace other than space/tab/newline.
+text run, complete tags inside an unterminated tail, whitespace other than space/tab/CR/newline.
 """
 from __future__ import annotations
 
@@ -531,12 +531,14 @@ class Gen:
     """Random sources from the segment grammar of Lexer.tla (well-formed by construction; TLC
     re-checks WellFormed and that Flat(segs) is the text that was fed to the code)."""
 
-    TEXT_BITS = ["a", "b", " ", "\n", '"', "'", "%}", "}}", "#}", "{ ", "{x", "%", "}", "\n\n", "p q", "\t"]
-    WS = ["", " ", " ", " ", "\n", "  ", "\n  ", " \n", "\t", "\n\n "]
-    WS1 = [" ", " ", "\n", "  ", "\n  ", " \n ", "\t"]
+    TEXT_BITS = ["a", "b", " ", "\n", '"', "'", "%}", "}}", "#}", "{ ", "{x", "%", "}", "\n\n", "p q", "\t",
+                 "\r\n", "\u00e9", "\u2713"]
+    WS = ["", " ", " ", " ", "\n", "  ", "\n  ", " \n", "\t", "\n\n ", "\r\n"]
+    WS1 = [" ", " ", "\n", "  ", "\n  ", " \n ", "\t", "\r\n  "]
     PLAIN_BLOCK = ["c", "x", "k=v", "a.b", "w=5%x", "%", "50%", "x|f:y", "#", "5%", "k=", "/"]
     NAMES = ["c", "x", "k", "y"]
-    STR_BITS = ["s", "a b", "%}", "}}", "{{ v }}", "{% x %}", "\n", '\\"', "\\'", "\\\\", "#}", "%", "{", " ", "{#", "\\n"]
+    STR_BITS = ["s", "a b", "%}", "}}", "{{ v }}", "{% x %}", "\n", '\\"', "\\'", "\\\\", "#}", "%", "{", " ", "{#", "\\n",
+                "\u00e9", "\r\n"]
 
     def __init__(self, rnd: random.Random):
         self.r = rnd
@@ -639,7 +641,7 @@ class Gen:
             return self.verbatim(closed=False)
         o = self.r.choice([PC, PC, LB, HS])
         ps = [{"p": "ws", "c": self.ws(False)}] if self.r.random() < 0.7 else []
-        ps += [p for p in self.parts(o, 0.3 if o == PC else 0.0, brace=False, closer=self.r.random() < 0.3)]
+        ps += [p for p in self.parts(o, 0.3 if o == PC else 0.0, brace=False, closer=self.r.random() < 0.15)]
         # glue rules of the grammar
         out: List[Dict[str, Any]] = []
         for p in ps:
@@ -666,7 +668,7 @@ class Gen:
                 s["c"].append(SP)
         return segs
 
-    def source(self, nmin: int, nmax: int, zone: float = 0.04) -> List[Dict[str, Any]]:
+    def source(self, nmin: int, nmax: int, zone: float = 0.012) -> List[Dict[str, Any]]:
         n = self.r.randint(nmin, nmax)
         segs: List[Dict[str, Any]] = []
         style = self.r.random()
@@ -836,7 +838,7 @@ def run(tier: str) -> int:
                        "segments validated by Trace_C09. Non-trivial = expected stream has more than one token; "
                        "distinct by hash of the abstract case")
     chk.assumptions += [
-        "characters are code points; whitespace inside tags is limited to space, tab, newline",
+        "characters are code points (incl. non-ASCII); whitespace inside tags is limited to space, tab, CR, newline",
         "oracle zone (TemplateSyntaxError or any faithful partition accepted): unbalanced quote in a block tag; "
         "unterminated tag containing a quoted '%}'; multiline_tags=False with a quoted tag spanning a line break",
         "not generated: quoted '%}' inside a verbatim body; backslash-newline in a string; text run ending in '{'",
